@@ -174,6 +174,16 @@ func targetFor(listen string, src netip.Addr) (network, addr string) {
 func (c *Clients) runUDP(cc *plan.ClientConn, cr *ConnRecord, srv plan.ServerSpec, ops []*OpRecord) {
 	src := netip.MustParseAddr(cc.Src)
 	_, target := targetFor(srv.Listen, src)
+	if cc.AltDst {
+		// the proxy host's second address of that family
+		if ap, err := netip.ParseAddrPort(target); err == nil {
+			if ap.Addr().Is4() {
+				target = netip.AddrPortFrom(netip.MustParseAddr("10.99.0.2"), ap.Port()).String()
+			} else {
+				target = netip.AddrPortFrom(netip.MustParseAddr("fd00:99::2"), ap.Port()).String()
+			}
+		}
+	}
 	c.sleepUntil(ops[0].Op.AtUs - 50)
 	uc, err := c.W.PeerDialUDP(fmt.Sprintf("C%d", cc.Idx), src, target)
 	if err != nil {
